@@ -62,9 +62,11 @@ TRUSTED = ['modelled rather than verified: RDMCommand.cpp VerifyData/CalculateCh
            'Pack(buffer) are compared with the model of Pack(ByteString) by the harness), PackWithStartCode, '
            'RDMReply::FromFrame, RDMFrame constructors, GetResponseWithPid/GetResponseFromData/NackWithReason, '
            'Duplicate, RDMCommand::operator==; constants and header offsets regenerated into Gen.v; '
+           'RequiredSize / Pack(buffer) / Write(IOStack) modelled separately (Ser.v, uint16_t accumulation) and proved equal to Pack, '
+           'RDMCommand::SetParamData with a NULL pointer (as fixed by fixes/02-null-param-data), '
            'RDMResponse::CombineResponses, RDMReply::DUBReply, RDMFrame::operator==, the discovery request builders, '
            'setters, IsDUB; not modelled: RDMReply::operator==/ToString, RDMCommand::ToString/Print; '
-           'message-length OverrideOptions are modelled and compared but only the default value is characterised by a theorem']
+           'DuplicateWithControllerParams does not exist in this checkout']
 
 CCS = [0x10, 0x11, 0x20, 0x21, 0x30, 0x31]
 
@@ -243,6 +245,12 @@ def gen_entry_points(rng, tier):
             rq['src'], rq['dst'], rq['tn'], rq['sub'] = rs['dst'], rs['src'], rs['tn'], rs['sub']
             rqs = cmd_s(rq)
         yield 'reply %s %s %s' % (rqs, tm, hx(fr))
+    # (h) every public constructor (and GetResponseFromData) given data = NULL with a claimed length
+    for i in range(120 if quick else 2000):
+        v = rng.choice('gsb')
+        c = rand_cmd(rng, cc=rng.choice([0x10, 0x20, 0x30]) if v == 'b' else rng.choice(CCS), n=0)
+        if c['cc'] & 1: c['port'] = rng.randrange(4)
+        yield 'nullctor %s %s %d' % (v, cmd_s(c), rng.choice([0, 0, 1, 2, 12, 231, 232, 1000]))
     # (e) RDMCommand::operator== on commands differing in at most one field
     for i in range(300 if quick else 5000):
         x = rand_cmd(rng, n=rng.choice([0, 1, 2, 3, 16, 231]))
@@ -337,7 +345,7 @@ def gen_cases(rng, tier):
 # property-determined observables; outside: dup (Duplicate), set (setters), b_* (what the response / discovery
 # builders put into a command, and everything computed from it) -- a divergence there is reported without a
 # failing input ("model no longer describes the code").  tz (RDMFrame timing zeroed), isdub are not compared.
-SPEC_KEYS = ('st cmd repack packed rt inf req dreq dresp resp respbs frame framep framepb reply fd rsz pbuf psmall '
+SPEC_KEYS = ('size wr2 pbig st cmd repack packed rt inf req dreq dresp resp respbs frame framep framepb reply fd rsz pbuf psmall '
              'wr papp pwsc pwsc2 eqback eq eqsym').split()
 INTERNAL_KEYS = ['tz', 'isdub', 'b_isdub']
 
